@@ -73,8 +73,12 @@ pub fn rand_layers_cfg(rng: &mut Rng, hostile: bool, shared_only: bool) -> Layer
     let mut registered = Vec::new();
     let n = if share { 2 + rng.usize(4) } else { 1 + rng.usize(4) };
     let mut nums: Vec<i16> = Vec::new();
+    // one layer set in four takes layer and purpose numbers from the whole 16-bit signed range (negative ones, both ends, 255 / 256), and
+    // the purposes of all its layers from one small pool, so that two layers share purpose numbers
+    let wide = rng.chance(1, 4);
+    const WIDE: [i16; 12] = [-1, -2, i16::MIN, i16::MAX, 255, 256, -256, 0, 1, 300, -32767, 0x7F00];
     while nums.len() < n {
-        let k = rng.range(0, 200) as i16;
+        let k = if wide { *rng.pick(&WIDE) } else { rng.range(0, 200) as i16 };
         if share && !nums.is_empty() && rng.chance(2, 3) {
             let again = *rng.pick(&nums);
             // another layer on the same GDSII layer number (as met1 / via share 68 in the crate's own test set) - or, one time in three, on
@@ -90,7 +94,7 @@ pub fn rand_layers_cfg(rng: &mut Rng, hostile: bool, shared_only: bool) -> Layer
         // distinct purpose numbers on this layer
         let mut pn: Vec<i16> = Vec::new();
         while pn.len() < 7 {
-            let k = rng.range(0, 60) as i16;
+            let k = if wide { WIDE[rng.usize(10)] } else { rng.range(0, 60) as i16 };
             if !pn.contains(&k) {
                 pn.push(k);
             }
